@@ -119,7 +119,7 @@ def run(ctx):
     # rewrites of a log of several hundred KB: the temporary file is written in many write(2) calls, a kill between two of them leaves half a file behind
     for i in range(2 if ctx.quick else 12):
         one_instance(ctx, r.fork(), big=130, only=(("plan",), ("compact",))[i % 2])
-    ctx.cov["rule"] = ("for generated CLI-reachable pre-states × multi-event commands (claim, claim <id>, multi-field set, create-with-state/claim, sequence chain, prune --yes, plan, compact): "
+    ctx.cov["rule"] = ("after every kill a dry-run prune (takes the lock, writes nothing) must leave the state as it was; kill sweeps on logs with an unterminated last line / a torn fragment and on rewrites of logs of several hundred KB; for generated CLI-reachable pre-states × multi-event commands (claim, claim <id>, multi-field set, create-with-state/claim, sequence chain, prune --yes, plan, compact): "
                        "SIGKILL injected with strace before every one of the command's system calls on the store's files; observable state (clock readings aside) must equal "
                        "the state before or the state after (twin run with the same scripted RNG); distinct = (command, kill point, events recorded)")
     ctx.assumptions += ["kernel: flock released on death; rename atomic; a write(2) not entered leaves no bytes", "kills are at system-call boundaries (mid-write tears are C03)"]
